@@ -1,5 +1,8 @@
-(* C14 (stretch) — TABLE OF PANIC SITES on the untrusted-keyset path of /repo,
-   made BY HAND from a reading of
+(* C14 (stretch) — the TYPE of the table of panic sites on the untrusted-keyset
+   path of /repo.  The table itself (proofs/UntrustedPanicSitesTable.v: its
+   entries carry the propositions that cover them AND their proofs, so it
+   type-checks only if the lemmas exist and state what the entry says) was made
+   BY HAND from a reading of
      keyset/validation.go, keyset/handle.go, keyset/keyset.go, keyset/binary_io.go,
      keyset/json_io.go, insecurecleartextkeyset/insecurecleartextkeyset.go,
      internal/protoserialization/protoserialization.go,
@@ -30,20 +33,25 @@
    EncryptedKeyset messages: 3322 + 566 cases in the thorough tier) produced no
    PANIC and no model mismatch.
 
-   Coverage legend (field s_cov):
-     CModel c   the site is a checked operation of model/Untrusted.v (clause c);
-                C14_readers_never_panic / C14_parser_and_constructor_never_panic cover it
-     CLemma l   small as-written model in model/UntrustedSites.v, lemma l of
-                proofs/UntrustedSitesProofs.v shows the guard suffices for all inputs
-     CTotal w   the model computes the same value with a total function (nil-safe
-                getter = get_sub / get_u32 / get_len on an absent field; a range loop);
-                nothing can panic, w says why
-     CTyped w   no attacker-controlled value reaches the expression (w)
-     CStdlib w  inside the Go standard library: answered by the record `stdlib` of
-                the model; the guard in front of the call is listed, w names the
-                library behaviour that is trusted
-     CHarness c only the harness decides (PANIC observation = violation); c = what
-                exercises it *)
+   The LIST of sites is hand-made: a site the reading missed is not in it (the
+   malformed stream and the PANIC observation of the harness are the net under
+   it).  What Coq checks is the COVERAGE column of the listed sites.
+
+   Coverage (field s_cov):
+     CModel P pf   the site is a checked operation inside a function of
+                   model/Untrusted.v; P is the no-panic (or rejection) theorem of
+                   that function, pf its proof (proofs/UntrustedProofs.v)
+     CLemma P pf   the code is transcribed AS WRITTEN with Go machine integers in
+                   model/UntrustedSites.v; P says the guard makes it safe for all
+                   inputs, pf is its proof (proofs/UntrustedSitesProofs.v)
+     CArgued w     NO THEOREM: the reading argues (w) that no attacker-controlled
+                   value reaches the expression (constant bounds, static types,
+                   a value tink-go built itself, a range loop over an allocated length)
+     CStdlib w     NO THEOREM: inside the Go standard library; the guard in front
+                   of the call is listed, w names the library behaviour trusted
+                   (in the model the answer is an arbitrary function: record stdlib)
+     CHarnessOnly w  NO THEOREM and no model: only the harness decides (PANIC
+                   observation = violation); w = what exercises it *)
 From Coq Require Import String List.
 Import ListNotations.
 Open Scope string_scope.
@@ -51,182 +59,21 @@ Open Scope string_scope.
 Inductive site_kind :=
 | KSlice | KIndex | KNilDeref | KIntConv | KMake | KBigInt | KTypeAssert | KStdlib | KExplicitPanic.
 
-Inductive coverage :=
-| CModel (clause : string)
-| CLemma (lemma : string)
-| CTotal (why : string)
-| CTyped (why : string)
+Inductive coverage : Type :=
+| CModel (P : Prop) (pf : P)
+| CLemma (P : Prop) (pf : P)
+| CArgued (why : string)
 | CStdlib (trusted : string)
-| CHarness (exercised_by : string).
+| CHarnessOnly (exercised_by : string).
 
 Record site := mkSite {
   s_file : string; s_func : string; s_expr : string; s_kind : site_kind;
-  s_guard : string; s_cov : coverage }.
+  s_guard : string;      (* documentation: the check in front of the expression, verbatim *)
+  s_cov : coverage }.
 
-Definition panic_sites : list site := [
-  (* ---------------- keyset layer ---------------- *)
-  mkSite "keyset/validation.go" "Validate" "keyset.Key, keyset.PrimaryKeyId (direct field access)" KNilDeref
-    "if keyset == nil { return error } (first statement)" (CModel "validate None = false; read_proto / handle_no_secrets on None");
-  mkSite "keyset/validation.go" "Validate" "key.KeyId, key.Status in the loop over keyset.Key" KNilDeref
-    "validateKey(key) returns an error for key == nil before any field is read" (CModel "validate_key None = false (ks_keys : list (option pkey)); C14_nil_parts_rejected");
-  mkSite "keyset/validation.go" "validateKey" "key.KeyData, key.OutputPrefixType, key.Status" KNilDeref
-    "if key == nil { return error }" (CModel "validate_key");
-  mkSite "keyset/validation.go" "Validate" "keyIDs[key.KeyId] = true (map write)" KNilDeref
-    "keyIDs := make(map[uint32]bool) four lines above" (CTyped "the map is allocated unconditionally");
-  mkSite "keyset/handle.go" "keysetToEntries" "entries := make([]*Entry, len(ks.GetKey())); entries[i] = ..." KMake
-    "Validate(ks) succeeded (ks non-nil); i ranges over the same slice" (CTotal "to_entries is a map over ks_keys; the size is a len()");
-  mkSite "keyset/handle.go" "keysetToEntries" "protoKey.GetKeyData(), GetKeyId(), GetOutputPrefixType(), GetStatus()" KNilDeref
-    "generated getters are nil safe; Validate already rejected nil keys and nil key data" (CTotal "entry_of reads k_data / k_id / k_prefix / k_status of a Some pkey");
-  mkSite "keyset/handle.go" "hasSecrets" "protoKey.GetKeyData().GetKeyMaterialType() inside slices.ContainsFunc(ks.GetKey(), ...)" KNilDeref
-    "getters only (ks, protoKey and KeyData may all be nil)" (CModel "has_secrets; read_no_secrets_np, handle_no_secrets_np");
-  mkSite "keyset/handle.go" "newFromEntries" "entry.IsPrimary(), entry.KeyStatus(), entry.KeyID() on each entry" KNilDeref
-    "entries come from keysetToEntries: every element was assigned newUnmonitoredEntry(...)" (CTotal "new_from_entries over a list of entries");
-  mkSite "keyset/handle.go" "decrypt / decryptWithContext" "encryptedKeyset.GetEncryptedKeyset(); keyEncryptionAEAD.Decrypt(...)" KNilDeref
-    "if encryptedKeyset == nil || keyEncryptionAEAD == nil { return error }" (CModel "read_encrypted (decode_encrypted = None => Err); read_encrypted_np");
-  mkSite "keyset/handle.go" "Handle.Entry" "h.entries[i]" KIndex
-    "if h == nil { error }; if i < 0 || i >= h.Len() { error }" (CLemma "entry_go_np");
-  mkSite "keyset/handle.go" "Handle.Primary / Len / Public" "h.primaryKeyEntry, h.entries" KNilDeref
-    "if h == nil { return error / 0 }" (CTyped "a handle returned by a reader is non-nil whenever err == nil");
-  mkSite "keyset/handle.go" "Handle.Public" "entries[i] = ... (make([]*Entry, h.Len()))" KIndex
-    "i ranges over h.entries, whose length is h.Len()" (CTotal "range loop over the allocated length");
-  mkSite "keyset/handle.go" "Handle.KeysetInfo" "panic(err) when entriesToKeysetInfo fails" KExplicitPanic
-    "entries non-empty (newFromEntries found a primary); keyStatusToProto fails only for Unknown, rejected by newFromEntries; protoserialization.SerializeKey(entry.Key()) must succeed for every key a parser accepted"
-    (CHarness "c14.go calls h.KeysetInfo() and h.Public() on EVERY accepted handle of every case (wellFormed / info checks); no model of the 37 serializers on this path");
-  mkSite "keyset/handle.go" "getKeysetInfo / getKeyInfo" "panic(nil keyset); key.KeyData.TypeUrl (direct)" KExplicitPanic
-    "only called from encrypt() with the keyset built by entriesToProtoKeyset from a live handle" (CTyped "write path: the keyset is produced by tink-go, not read from input");
-  mkSite "insecurecleartextkeyset/insecurecleartextkeyset.go" "Read" "len(ks.Key)" KNilDeref
-    "if r == nil { error }; err != nil || ks == nil || len(ks.Key) == 0 (short-circuit order)" (CModel "read_proto None = Err; C14_nil_and_empty_rejected");
-  mkSite "keyset/binary_io.go, keyset/json_io.go" "BinaryReader.Read / JSONReader.Read" "proto.Unmarshal / protojson.Unmarshal on arbitrary bytes" KStdlib
-    "none needed: the libraries return errors" (CStdlib "protobuf-go wire decoder and protojson do not panic on any input (transcribed as fields / wire_ok / utf8_valid and compared on every case; huge length prefixes 2^31-1 in gen6.go)");
-  (* ---------------- internal/protoserialization ---------------- *)
-  mkSite "internal/protoserialization/protoserialization.go" "ParseKey" "keySerialization.KeyData().GetTypeUrl() / GetKeyMaterialType()" KNilDeref
-    "keySerialization is the non-nil result of NewKeySerialization; KeyData() getters are nil safe" (CModel "parse_key dispatch on kd_url; fallback PFallback");
-  mkSite "internal/protoserialization/protoserialization.go" "KeySerialization.clone" "proto.Clone(k.keyData).(*tinkpb.KeyData)" KTypeAssert
-    "proto.Clone returns a message of the dynamic type of its argument (also for a typed nil pointer)" (CTyped "the asserted type is the static type of the argument");
-  mkSite "internal/protoserialization/protoserialization.go" "FallbackProtoPrivateKey.PublicKey" "keyManager.(registry.PrivateKeyManager) with ', ok'" KTypeAssert
-    "two-value form" (CTyped "checked assertion");
-  mkSite "internal/protoserialization/protoserialization.go" "NewFallbackProtoKey" "calculateOutputPrefix(outputPrefixType, id)" KStdlib
-    "default: return error for an unknown prefix type (Validate rejected it before)" (CModel "fallback branch of parse_key: known_prefix");
-  (* ---------------- helpers ---------------- *)
-  mkSite "internal/ec/ec.go" "BigIntBytesToFixedSizeBuffer" "make([]byte, size-len(bigIntBytes), size)" KMake
-    "if len(bigIntBytes) < size (so 0 < size-len <= size)" (CLemma "fixed_size_go_np, fixed_size_go_is_model (premise 0 <= size: callers pass 32/48/66 or +1; Example fixed_size_go_negative_size_panics)");
-  mkSite "internal/ec/ec.go" "BigIntBytesToFixedSizeBuffer" "bigIntBytes[i] for i < len(bigIntBytes)-size" KIndex
-    "reached only when len(bigIntBytes) > size >= 0, so 0 <= i < len" (CLemma "strip_loop_spec, fixed_size_go_np");
-  mkSite "internal/ec/ec.go" "BigIntBytesToFixedSizeBuffer" "bigIntBytes[len(bigIntBytes)-size:]" KSlice
-    "len(bigIntBytes) > size >= 0" (CModel "fixed_size (Bytes.slice); fixed_size_np");
-  mkSite "internal/outputprefix/outputprefix.go" "Tink / Legacy" "binary.BigEndian.PutUint32(prefix[1:], id)" KSlice
-    "prefix := make([]byte, 5): constant size" (CTyped "constant bounds");
-  mkSite "internal/signature/rsa.go" "ValidateRSAPublicKeyParams" "int(e.Int64())" KIntConv
-    "if !e.IsInt64() { return error } (commit 067e856)" (CModel "rsa_exponent (be_val e < 2^63); C14_rsa_exponent_truncation_rejected");
-  mkSite "internal/signature/rsa.go" "Pad" "make([]byte, encodingLength); padded[encodingLength-len(toPad):]" KSlice
-    "if len(toPad) > encodingLength { error }; == returns early" (CTyped "serialisation path of an accepted key; encodingLength is a byte length of the modulus");
-  (* ---------------- ECDSA ---------------- *)
-  mkSite "signature/ecdsa/protoserialization.go" "encodePoint" "make([]byte, 1+2*coordinateSize); encodedPoint[0] = 0x04" KMake
-    "coordinateSize in {32, 48, 66} (coordinateSizeForCurve errors otherwise)" (CLemma "encode_point_go_ok");
-  mkSite "signature/ecdsa/protoserialization.go" "encodePoint" "encodedPoint[xStartPos:], encodedPoint[yStartPos:] with xStartPos = 1+c-len(x)" KSlice
-    "x, y are results of BigIntBytesToFixedSizeBuffer(., c): exactly c bytes" (CModel "encode_point; encode_point_ok; also CLemma encode_point_after_fixed_size_np (Example encode_point_go_long_coordinate_panics without the guard)");
-  mkSite "signature/ecdsa/protoserialization.go" "newPublicKeyFromProto" "protoECDSAKey.GetParams().GetCurve() etc. (nil params sub-message)" KNilDeref
-    "getters" (CTotal "get_sub 2 fs = [] and get_u32 _ [] = 0 for an absent sub-message: curve 0 = UNKNOWN_CURVE is rejected by curveTypeFromProto");
-  mkSite "signature/ecdsa/protoserialization.go" "createProtoECDSAPublicKey (serializer)" "publicPoint[1:], xy[:coordinateSize], xy[coordinateSize:]" KSlice
-    "the key was built by NewPublicKey, which validated the point with crypto/ecdh: len = 1+2c" (CLemma "point_coords_go_np");
-  mkSite "signature/ecdsa/signer.go, verifier.go" "NewSigner / NewVerifier" "publicPoint[1:], xy[:len(xy)/2], xy[len(xy)/2:]" KSlice
-    "NewPublicKey validated the point (len >= 1)" (CModel "prim_ok, PEcdsa clause: slice 1 (length pt) pt, halves; also CLemma point_halves_go_np (Example point_halves_go_empty_point_panics)");
-  mkSite "signature/ecdsa/key.go" "NewPublicKey / NewPrivateKeyFromPublicKey" "ecdh curve.NewPublicKey(point), curve.NewPrivateKey(scalar)" KStdlib
-    "none needed: crypto/ecdh returns errors for wrong lengths, off-curve points, the point at infinity, out-of-range scalars" (CStdlib "ec_point_ok / ec_pub_of_priv of the record stdlib (oracle ops c14_ecdh_point, c14_ecdh_pub)");
-  (* ---------------- Ed25519 ---------------- *)
-  mkSite "signature/ed25519/key.go" "NewPrivateKey / NewPrivateKeyWithPublicKey" "ed25519.NewKeyFromSeed(seed) (panics unless len(seed) == 32)" KStdlib
-    "if privateKeyBytes.Len() != 32 { return error }; if pubKey == nil { return error }" (CModel "ed25519_from_seed (Panic unless 32 bytes) behind the length test of parse_ed25519_priv; parse_key_np");
-  mkSite "signature/ed25519/key.go" "NewPrivateKey" "privKey.Public().(ed25519.PublicKey)" KTypeAssert
-    "ed25519.PrivateKey.Public always returns ed25519.PublicKey" (CTyped "documented dynamic type");
-  mkSite "signature/ed25519/signer.go" "NewSigner" "ed25519.NewKeyFromSeed(privateKey.PrivateKeyBytes())" KStdlib
-    "a *PrivateKey only exists with a 32-byte seed (constructors above)" (CModel "prim_ok PEd25519Priv");
-  (* ---------------- RSA ---------------- *)
-  mkSite "signature/rsassapkcs1/protoserialization.go, rsassapss, jwt/jwtrsassapkcs1, jwt/jwtrsassapss" "parsePublicKey / ParseKey" "int(exponent.Int64())" KIntConv
-    "if !exponent.IsInt64() { return error }" (CModel "rsa_exponent / rsa_exponent_parse_ok");
-  mkSite "signature/rsassapss/protoserialization.go" "ParseKey" "int(protoKey.GetParams().GetSaltLength()) (int32 field, may be negative)" KIntConv
-    "NewParameters: SaltLengthBytes < 0 is an error" (CLemma "int32_positive_is_go (the model's int32_positive is the Go comparison on the sign-extended value)");
-  mkSite "signature/rsassa*/key.go, jwt/jwtrsassa*/key.go" "NewPublicKey" "new(big.Int).SetBytes(modulus).BitLen()" KBigInt
-    "SetBytes / BitLen are total" (CTotal "be_val and bit length of a byte string");
-  mkSite "signature/rsassa*/key.go, jwt/jwtrsassa*/key.go" "NewPrivateKey" "publicKey.parameters (publicKey may be nil for API callers)" KNilDeref
-    "on the parse path publicKey is the non-nil result of NewPublicKey (err checked)" (CTyped "parser passes a checked value");
-  mkSite "signature/rsassa*/key.go, jwt/jwtrsassa*/key.go" "NewPrivateKey" "privateKey.Validate(); privateKey.Precompute() with attacker P, Q, D (zero, one, even, non-prime)" KStdlib
-    "Validate() error is returned before Precompute" (CStdlib "rsa_crt: crypto/rsa Validate returns an error (never panics) on any big integers; oracle op c14_rsa_crt; gen2.go rsaTweak and gen6.go (P, Q, D empty / ff / 300 zeros)");
-  mkSite "signature/rsassa*/key.go" "PrivateKey.DP / DQ / QInv" "k.privateKey.Precomputed.Dp.Bytes() (nil if Precompute left the key unmodified)" KNilDeref
-    "NewPrivateKey returned only after Validate() == nil, and in Go >= 1.24 Validate runs the same precompute and returns its error" (CStdlib "rsa_crt = Some (dp, dq, qinv) exactly when Validate succeeds");
-  mkSite "signature/rsassa*/key.go" "privateKeySelfCheck" "signer.Sign / verifier.Verify on the fresh key" KStdlib
-    "errors are returned" (CStdlib "rsa_selfcheck (oracle op c14_rsa_selfcheck)");
-  (* ---------------- SLH-DSA / ML-DSA ---------------- *)
-  mkSite "signature/slhdsa/protoserialization.go" "ParseKey" "int(protoKey.GetParams().GetKeySize()) (int32 field)" KIntConv
-    "NewParameters accepts only the listed (hash, key size, sig type) combinations" (CModel "parse_slhdsa_pub / parse_slhdsa_priv: key size in {64, 96, 128}");
-  mkSite "internal/signature/slhdsa/slhdsa.go" "DecodePublicKey" "pkEnc[0:p.n], pkEnc[p.n:2*p.n]" KSlice
-    "if len(pkEnc) != p.PublicKeyLength() { return error }" (CLemma "slh_decode_go_np");
-  mkSite "internal/signature/slhdsa/slhdsa.go" "DecodeSecretKey" "skEnc[0:n], [n:2n], [2n:3n], [3n:4n]" KSlice
-    "if len(skEnc) != p.SecretKeyLength() { return error }" (CModel "parse_slhdsa_priv: slice (2n) (3n), slice (3n) (4n); also CLemma slh_decode_go_np");
-  mkSite "signature/mldsa/key.go, jwt/jwtmldsa/key.go" "NewPublicKey" "checkPublicKeyLengthForInstance(len(keyBytes), instance)" KStdlib
-    "length compared before DecodePublicKey" (CModel "parse_mldsa_pub / parse_jwt_mldsa_pub: exact public key length");
-  (* ---------------- ECIES / HPKE ---------------- *)
-  mkSite "hybrid/ecies/protoserialization.go" "parseParameters" "proto.Clone(protoParams.GetDemParams().GetAeadDem()).(*tinkpb.KeyTemplate); demTemplate.OutputPrefixType = RAW" KTypeAssert
-    "if GetDemParams() == nil { error }; if GetAeadDem() == nil { error } (two lines above)" (CModel "parse_ecies_*: has_sub checks on DEM params and AEAD DEM; nil injections d2-ecies in gen5.go and site-nil in gen6.go");
-  mkSite "hybrid/ecies/protoserialization.go" "parseParameters" "protoserialization.ParseParameters(demTemplate) on an attacker-chosen template (any registered type URL, any value)" KStdlib
-    "every parameters parser returns errors; NewParameters accepts only six DEM parameter sets" (CModel "ecies_dem (the six accepted DEM templates); gen3.go demTemplate");
-  mkSite "hybrid/ecies/protoserialization.go" "parsePublicKey" "slices.Concat([]byte{0x04}, x, y)" KSlice
-    "x, y from BigIntBytesToFixedSizeBuffer" (CModel "parse_ecies_pub: bind (fixed_size x c) ...");
-  mkSite "hybrid/ecies/protoserialization.go" "ParseKey (private)" "publicKey.Parameters().(*Parameters).CurveType()" KTypeAssert
-    "publicKey was built by this package's NewPublicKey with a *Parameters" (CTyped "static construction");
-  mkSite "hybrid/ecies/protoserialization.go" "publicKeyToProtoPublicKey (serializer)" "publicKey.PublicKeyBytes()[1:], xy[:coordinateSize], xy[coordinateSize:]" KSlice
-    "NIST-curve key bytes are 0x04 || x || y with |x| = |y| = c by construction" (CLemma "point_coords_go_np");
-  mkSite "hybrid/ecies/parameters.go" "package-level DEM parameter table" "panic(failed to create ... parameters)" KExplicitPanic
-    "arguments are constants" (CTyped "no input");
-  mkSite "hybrid/hpke/key.go" "NewPublicKey" "parameters.Variant() (nil *Parameters for API callers)" KNilDeref
-    "parser passes the result of parseParameters (err checked)" (CTyped "parser passes a checked value");
-  mkSite "hybrid/hpke/key.go" "validateXWingPublicKey / validateMLKEMPublicKey / NewPrivateKeyFromPublicKey" "mlkem.NewDecapsulationKey768/1024(seed), xwing.PublicFromSecret(sk)" KStdlib
-    "both return errors for a wrong length (xwing: len != 32 checked first)" (CStdlib "mlkem_pub / xwing_pub of the record stdlib");
-  mkSite "hybrid/internal/xwing/xwing.go" "Encapsulate / Decapsulate" "publicKey[:1184], publicKey[1184:]; ciphertext[:1088], ciphertext[1088:]" KSlice
-    "if len(publicKey) != 1216 { error }; if len(ciphertext) != 1120 { error }" (CTyped "constant bounds behind an exact length test (use path, not parse path)");
-  (* ---------------- JWT ---------------- *)
-  mkSite "jwt/jwtecdsa/protoserialization.go" "ParseKey" "BigIntBytesToFixedSizeBuffer(x, c), slices.Concat(0x04, x, y)" KSlice
-    "as ECDSA" (CModel "parse_jwt_ecdsa_*");
-  mkSite "jwt/jwtecdsa/protoserialization.go" "serializer" "k.PublicPoint()[1:], xy[:coordinateSize], xy[coordinateSize:]" KSlice
-    "NewPublicKey validated the point with crypto/ecdh" (CLemma "point_coords_go_np");
-  mkSite "jwt/jwt*/key.go" "computeKID" "make([]byte, 4); binary.BigEndian.PutUint32(buf, idRequirement)" KMake
-    "constant size" (CTyped "constant bounds");
-  mkSite "jwt/jwt*/protoserialization.go" "ParseKey" "protoKey.GetCustomKid().GetValue() (nil CustomKid)" KNilDeref
-    "getters; presence tested with GetCustomKid() != nil / HasCustomKid" (CModel "has_sub 4/…: custom kid present or absent; gen4.go kidChoice");
-  (* ---------------- symmetric key types ---------------- *)
-  mkSite "aead/aesctrhmac/protoserialization.go (and all symmetric parsers)" "ParseKey" "protoKey.GetAesCtrKey().GetParams().GetIvSize() on nil sub-messages" KNilDeref
-    "getters" (CTotal "get_sub of an absent field is the empty message, its scalars are 0 and are then rejected by the size checks (iv 0 < 12, tag 0 < 10)");
-  mkSite "aead/*, mac/*, prf/*, daead/aessiv protoserialization.go" "ParseKey" "int(protoKey.GetParams().GetTagSize()), int(GetIvSize()), int(format.GetKeySize()) (uint32 -> int)" KIntConv
-    "64-bit platform: lossless; the values are then compared with small constants / with len(key)" (CLemma "int_of_u32 is the identity; on 32-bit the wrapped value is negative and below every minimum: int_of_u32_32bit_wrapped_is_negative (not the platform of the check)");
-  mkSite "aead/aesgcm/key.go etc." "NewKey" "keyBytes.Len() != int(parameters.KeySizeInBytes())" KIntConv
-    "KeySizeInBytes was validated to be 16 / 32 (24 rejected)" (CModel "parse_aes_gcm etc.: key length tests");
-  mkSite "streamingaead/aesctrhmac/protoserialization.go" "ParseKey" "int32(paramsProto.GetCiphertextSegmentSize()) (uint32 -> int32 wraps)" KIntConv
-    "NewParameters: SegmentSizeInBytes < minCiphertextSegmentSize is an error, min > 0" (CLemma "seg_check_ctr_go_sound, seg_check_ctr_go_is_model (= int32_at_least of the model)");
-  mkSite "streamingaead/aesctrhmac/parameters.go" "NewParameters" "int32(DerivedKeySizeInBytes + 7 + 1 + HmacTagSizeInBytes + 1) (int -> int32 wraps)" KIntConv
-    "derived key size in {16, 32} and 10 <= tag <= 20/32/64 are checked BEFORE the sum is formed" (CLemma "seg_check_ctr_go_sound (Example seg_check_needs_the_tag_bound: without the bound a tag size of 2^32-25 passes)");
-  mkSite "streamingaead/aesgcmhkdf/protoserialization.go, parameters.go" "ParseKey / validateOpts" "int32(paramsProto.GetCiphertextSegmentSize()); int32(DerivedKeySizeInBytes + 24 + 1)" KIntConv
-    "derived key size in {16, 32} checked first; SegmentSizeInBytes < minSegmentSize is an error" (CLemma "seg_check_gcm_go_sound");
-  mkSite "streamingaead/*/key.go" "primitive constructor" "int(params.SegmentSizeInBytes()), uint32(keyBytes.Len())" KIntConv
-    "segment size > 0 after NewParameters; Len() is a length" (CModel "prim_ok PStreamGcmHkdf / PStreamCtrHmac");
-  mkSite "secretdata/secretdata.go" "NewBytesFromData" "bytes.Clone(data)" KStdlib
-    "total" (CTotal "identity on byte strings")
-].
-
-(* ---- sanity of the table ------------------------------------------------- *)
-
-Definition guarded (s : site) : bool := negb (String.eqb (s_guard s) "NONE").
-
-(* no site of the table is without a guard *)
-Lemma every_site_has_a_guard : forallb guarded panic_sites = true.
-Proof. vm_compute. reflexivity. Qed.
-
-Definition is_harness_only (s : site) : bool := match s_cov s with CHarness _ => true | _ => false end.
+Definition by_model_theorem (s : site) : bool := match s_cov s with CModel _ _ => true | _ => false end.
+Definition by_site_lemma (s : site) : bool := match s_cov s with CLemma _ _ => true | _ => false end.
+Definition argued_only (s : site) : bool := match s_cov s with CArgued _ => true | _ => false end.
 Definition is_stdlib (s : site) : bool := match s_cov s with CStdlib _ => true | _ => false end.
-
-(* how the 67 sites are covered: 1 by the harness alone (KeysetInfo's
-   panic(err)), 6 inside the standard library (trusted behaviour named), the
-   rest by a model clause, a lemma, totality or typing *)
-Lemma coverage_counts :
-  length panic_sites = 67 /\
-  length (filter is_harness_only panic_sites) = 1 /\
-  length (filter is_stdlib panic_sites) = 6.
-Proof. vm_compute. repeat split. Qed.
+Definition is_harness_only (s : site) : bool := match s_cov s with CHarnessOnly _ => true | _ => false end.
+Definition count (f : site -> bool) (l : list site) : nat := length (filter f l).
